@@ -232,6 +232,8 @@ class ExprMixin:
             return const(py)
         except (ValueError, RecursionError, KeyError):
             pass
+        if isinstance(expr, ast.Tuple) and expr.elts and all(isinstance(e, ast.Name) and e.id in mod.classes for e in expr.elts):
+            return VTuple(tuple(self.module_name(mod, e.id) for e in expr.elts))  # a tuple of classes
         if isinstance(expr, ast.Call):
             f = ast.unparse(expr.func)
             if f in ("re.compile",) :
